@@ -641,6 +641,79 @@ Proof.
   intros Hok. apply (sim_trace_no_diverge [] ops). apply run_correct. exact Hok.
 Qed.
 
+(** ** A static sufficient condition for [ops_ok]
+
+    [ops_ok] is phrased over the states of the run.  It follows from a bound on
+    the sequence alone: at most [B] operations, every [reserve] / [with_capacity]
+    argument at most [B], and a table for [2 * B] elements is still addressable. *)
+
+Lemma next_pow2_mono x y : (x <= y)%N -> (next_pow2 x <= next_pow2 y)%N.
+Proof.
+  intros H. destruct (next_pow2_is_pow2 y) as [k Hk]. rewrite Hk.
+  apply next_pow2_le_pow2. rewrite <- Hk. pose proof (next_pow2_ge y). lia.
+Qed.
+
+Lemma next_capacity_mono a b : (a <= b)%N -> (next_capacity a <= next_capacity b)%N.
+Proof.
+  intros H. unfold next_capacity.
+  destruct (N.eqb_spec a 0) as [Ha|Ha]; [lia|].
+  destruct (N.eqb_spec b 0) as [Hb|Hb]; [lia|].
+  apply N.max_le_compat_r. apply next_pow2_mono.
+  unfold RATIO_D, RATIO_N. lia.
+Qed.
+
+Definition op_small (B : N) (o : op) : Prop :=
+  match o with
+  | OReserve n => (n <= B)%N
+  | OWithCap n => (n <= B)%N
+  | _ => True
+  end.
+
+Lemma spec_step_length s o : length (fst (spec_step s o)) <= S (length s).
+Proof.
+  destruct o; cbn [spec_step fst length]; try lia.
+  - destruct (mem k s); cbn [fst length]; lia.
+  - destruct (mem k s); cbn [fst]; [|lia].
+    pose proof (filter_partition_length (fun x => negb (N.eqb k x)) s). lia.
+  - pose proof (filter_partition_length (retain_pred m r) s). lia.
+Qed.
+
+Lemma step_len_le t o : TI t -> op_ok t o ->
+  TI (fst (step sbits hash t o)) /\ (len (fst (step sbits hash t o)) <= len t + 1)%N.
+Proof.
+  intros HT Hok. destruct (step sbits hash t o) as [t' r] eqn:E. cbn [fst].
+  destruct (step_correct t o t' r HT Hok E) as [_ [HT' [_ [Hp _]]]].
+  split; [exact HT'|].
+  pose proof (Permutation_length Hp) as Hl. pose proof (spec_step_length (abs t) o) as Hs.
+  pose proof (ti_len _ _ t HT). pose proof (ti_len _ _ t' HT'). unfold abs in *. lia.
+Qed.
+
+Lemma ops_ok_small_from B ops : (next_capacity (2 * B) <= 2 ^ sbits)%N ->
+  Forall (op_small B) ops ->
+  forall t, TI t -> (len t + N.of_nat (length ops) <= B)%N -> ops_ok t ops.
+Proof.
+  intros HB. induction 1 as [|o ops Ho _ IH]; intros t HT Hlen; [exact I|].
+  cbn [length] in Hlen.
+  assert (Hok : op_ok t o).
+  { destruct o; cbn [op_ok op_small] in *; try exact I.
+    - intros _. eapply N.le_trans; [apply next_capacity_mono|exact HB]. lia.
+    - intros _. eapply N.le_trans; [apply next_capacity_mono|exact HB]. lia.
+    - eapply N.le_trans; [apply next_capacity_mono|exact HB]. lia. }
+  split; [exact Hok|].
+  destruct (step_len_le t o HT Hok) as [HT' Hl]. apply IH; [exact HT' | lia].
+Qed.
+
+Theorem run_correct_small B ops :
+  (N.of_nat (length ops) <= B)%N -> Forall (op_small B) ops ->
+  (next_capacity (2 * B) <= 2 ^ sbits)%N ->
+  sim_trace [] ops (run sbits hash empty ops) /\ ~ In RDiverge (run sbits hash empty ops).
+Proof.
+  intros Hl Hs HB.
+  assert (Hok : ops_ok empty ops).
+  { apply (ops_ok_small_from B ops HB Hs empty (TI_empty sbits hash)). cbn [len empty]. lia. }
+  split; [exact (proj1 (run_correct ops Hok)) | exact (run_terminates ops Hok)].
+Qed.
+
 End Refine.
 
 (** ** The hypotheses are satisfiable by a non-trivial reachable state
